@@ -75,6 +75,8 @@ def cases(tier, seed):
     # with screening (several inner iterations per step: the rule is about solve steps, not about inner iterations)
     for drive, win in (("field", 1), ("field", 3), ("gentle_current", 3)):
         out.append(dict(fam="real", drive=drive, mult=0.5, window=win, screening=True))
+    for drive in ("field", "gentle_current"):
+        out.append(dict(fam="real", drive=drive, mult=0.5, window=3, edit_after_build=True))
     # one SolverOptions object re-used for two solves and edited in between (the rule applies to the settings as they are now)
     for drive, how in itertools.product(("field", "gentle_current"), ("fixed_first", "larger_limits_first")):
         out.append(dict(fam="real", drive=drive, mult=0.5, window=3, reuse_options=how))
@@ -292,7 +294,15 @@ def run_real_case(case):
         for f, v in want.items():
             setattr(opts, f, v)
     try:
-        tdgl.solve(dev, opts, **kw)
+        if case.get("edit_after_build"):
+            # window, multiplier and retry limit are edited on the options object between building the solver and running it
+            want = (opts.adaptive_window, opts.adaptive_time_step_multiplier, opts.max_solve_retries)
+            opts.adaptive_window, opts.adaptive_time_step_multiplier, opts.max_solve_retries = s["window"] + 3, 0.9, 2
+            solver = tdgl.TDGLSolver(dev, opts, **kw)
+            opts.adaptive_window, opts.adaptive_time_step_multiplier, opts.max_solve_retries = want
+            solver.solve()
+        else:
+            tdgl.solve(dev, opts, **kw)
     except RuntimeError as exc:
         res.info.append(f"real run raised {str(exc)[:80]}")
     frames, _ = drivers.read_frames("out.h5")
